@@ -7,6 +7,36 @@ import OVM.IO.Ovmb.Permissive
 namespace OVM.Ovmb
 open OVM.Gen.Ovmb
 
+/-! ### facts about the generated format constants (kept out of the judge's import closure: a changed constant must
+    break a *proof*, not the judge) -/
+
+/-- width-selection adequacy: every value up to the argument fits the selected width (for 32-bit arguments) -/
+theorem suitable_fits {n v : Nat} (hn : n < 2 ^ 32) (hv : v ≤ n) :
+    v < 256 ^ elemSizeInt (suitableIntEncoding n) := by
+  unfold suitableIntEncoding
+  split
+  · rename_i h; have : elemSizeInt intEncodingU8 = 1 := by decide
+    rw [this]; simp only [thrU8] at h; omega
+  · split
+    · rename_i h; have : elemSizeInt intEncodingU16 = 2 := by decide
+      rw [this]; simp only [thrU16] at h; omega
+    · have : elemSizeInt intEncodingU32 = 4 := by decide
+      rw [this]; omega
+
+theorem suitable_valid (n : Nat) : suitableIntEncoding n ∈ validIntEncoding ∧ suitableIntEncoding n ≠ intEncodingNone := by
+  unfold suitableIntEncoding
+  split
+  · decide
+  · split <;> decide
+
+theorem encFileHeader_length (a b c d e f g h : Nat) : (encFileHeader a b c d e f g h).length = sizeFileHeader := by
+  simp [encFileHeader, magicBytes, magic, sizeFileHeader]
+
+theorem encChunk_length (ty v pad c fl : Nat) (p : Bytes) :
+    (encChunk ty v pad c fl p).length = sizeChunkHeader + p.length + pad := by
+  simp [encChunk, sizeChunkHeader]; omega
+
+
 theorem finish_ok_eof {s : RState} {F : File} (h : finish s = .ok F) : s.eof = true := by
   unfold finish at h
   cases he : s.eof <;> simp_all [invalid]
